@@ -119,6 +119,7 @@ func C15(run *core.Run) {
 	}
 	wireCheck(run)
 	syncSessCheck(run)
+	gossipCheck(run)
 	run.Finish()
 }
 
